@@ -258,6 +258,7 @@ def pipeTrace (stages : List String) (files : List (String × String)) (desc : B
             | .ok gp => markAllDone desc (List.range gp.nodes.size) gp
             | .error _ => false
           [s!"GOODFACTS {goodFactsB g vis} final-facts-are-these={same} visited={vis.length}/{g.nodes.size}",
+           s!"GOODMEM {goodMemFactsB g vis}",
            s!"MARKDONE {markDone}"] ++
           (if goodFactsB g vis then [] else [s!"GOODWHY {goodFactsWhy g vis}"])
       else []
